@@ -84,7 +84,17 @@ class P(ServeProp):
             if rnd.random() < 0.06:
                 val = rnd.choice(["items=0-1", "bytes", "bytes=", "bytes=,,", "bytes=0-1=2-3", "BYTES=0-1", "bytes= 0-1", "bytes=0-1,", ",bytes=0-1", "bytes==0-1"])
             t = gs.Tree(); t.ents.append(("D", "outer/root")); t.ents.append(("F", "outer/root/" + self.FILE, data))
-            out.append(gs.serve_case(rnd, kind="serve" if rnd.random() < 0.85 else "serveL", tree=t, target="/" + self.FILE, method="GET",
+            # the same file reached the other two ways the server resolves a path: as the .html sibling of an extensionless target and as
+            # the index.html of a directory (each path has its own copy of the range handling)
+            kind = "serve" if rnd.random() < 0.85 else "serveL"
+            via = rnd.random() if kind == "serve" else 1.0        # the legacy entry point takes the raw target as the file name: no fallbacks
+            if via < 0.12:
+                t.ents.append(("F", "outer/root/page.html", data)); tgt = "/page"
+            elif via < 0.2:
+                t.ents.append(("D", "outer/root/dir")); t.ents.append(("F", "outer/root/dir/index.html", data)); tgt = rnd.choice(["/dir/", "/dir"])
+            else:
+                tgt = "/" + self.FILE
+            out.append(gs.serve_case(rnd, kind=kind, tree=t, target=tgt, method="GET",
                                      headers=["Range: " + val], cors="all"))
         return out
 
